@@ -165,11 +165,17 @@ func (fm *Server) Status(ctx context.Context, _ *pb.StatusRequest) (*pb.StatusRe
 	}, nil
 }
 
-func (fm *Server) Init(ctx context.Context, req *pb.InitRequest) (*pb.Response, error) {
+func (fm *Server) Init(ctx context.Context, req *pb.InitRequest) (_ *pb.Response, retErr error) {
 	fm.lock.Lock()
+	prevStatus := fm.status
 	fm.status = FuseManagerWaitInit
 	defer func() {
-		fm.status = FuseManagerReady
+		if retErr != nil {
+			// A failed (re-)initialization must not report a readiness it did not establish.
+			fm.status = prevStatus
+		} else {
+			fm.status = FuseManagerReady
+		}
 		fm.lock.Unlock()
 	}()
 
